@@ -2,7 +2,7 @@
    indistinguishable by any later history; an overwritten write, a write followed by an unset,
    and the order of writes to different headers are unobservable by every later history. *)
 From Coq Require Import List NArith Bool.
-From Falco Require Import Base.Bytes Model.HdrField Model.Hdr Model.HdrSpec
+From Falco Require Import Base.Bytes Model.HdrField Model.HdrCookie Model.Hdr Model.HdrSpec
   Proofs.HdrBytes Proofs.HdrStore Proofs.HdrLaws1.
 Import ListNotations.
 
@@ -119,4 +119,50 @@ Proof.
   intros Hn. apply abs_equiv_observations.
   eapply aeq_trans; [apply abs_after2|]. eapply aeq_trans; [|apply aeq_sym; apply abs_after].
   rewrite (classify_set_whole kd n _ Hn), (classify_unset_whole kd n Hn). apply sremove_swrite.
+Qed.
+
+(* ---- absorption: a whole-header write (or unset) erases the effect of ANY earlier operation
+   that touches only that header: whole or sub-field set, add, unset, cookie write/remove, reads,
+   refused writes.  (A wildcard unset touches other headers and is excluded.) *)
+Definition touches_only (cn : bytes) (s : sop) : bool :=
+  match s with
+  | SRead _ _ _ | SRefuse | SUnmod => true
+  | SWrite c _ | SWriteField c _ _ | SAppend c _ | SRemove c | SRemoveField c _
+  | SCookieWrite c _ _ | SCookieRemove c _ => beq c cn
+  | SRemovePrefix _ => false
+  end.
+
+Lemma absorb_write a cn s v : touches_only cn s = true ->
+  aeq (fst (sstep (fst (sstep a s)) (SWrite cn v))) (fst (sstep a (SWrite cn v))).
+Proof.
+  intros Ht.
+  assert (Hsame : forall (a1 : astate),
+            (forall n, upd (a_vals a1) cn (@None (list bytes)) n = upd (a_vals a) cn None n) ->
+            (forall n w, upd (a_asg a1) cn w n = upd (a_asg a) cn w n) ->
+            (forall l n, upd (a_vals a1) cn (Some l) n = upd (a_vals a) cn (Some l) n) ->
+            aeq (fst (sstep a1 (SWrite cn v))) (fst (sstep a (SWrite cn v)))).
+  { intros a1 H1 H2 H3. destruct v; cbn [sstep fst]; split; intros n; cbn [a_vals a_asg]; auto. }
+  destruct s as [c key ck|c w|c key w|c s|c|c key|p|c key s|c key| |]; cbn [touches_only] in Ht;
+    try discriminate; try (apply beq_eq in Ht; subst c).
+  - apply aeq_refl.
+  - destruct w; apply Hsame; intros; cbn [sstep fst a_vals a_asg]; apply upd_upd_same.
+  - apply Hsame; intros; cbn [sstep fst a_vals a_asg]; apply upd_upd_same.
+  - apply Hsame; intros; cbn [sstep fst a_vals a_asg]; try apply upd_upd_same; reflexivity.
+  - apply Hsame; intros; cbn [sstep fst a_vals a_asg]; apply upd_upd_same.
+  - apply Hsame; intros; cbn [sstep fst a_vals a_asg]; apply upd_upd_same.
+  - apply Hsame; intros; cbn [sstep fst a_vals a_asg]; try apply upd_upd_same; reflexivity.
+  - cbn [sstep fst]. destruct (all_vals a cn) as [|l0 ls]; [apply aeq_refl|].
+    destruct (remove_cookie (l0 :: ls) key); apply Hsame; intros; cbn [a_vals a_asg];
+      try apply upd_upd_same; reflexivity.
+  - apply aeq_refl.
+  - apply aeq_refl.
+Qed.
+
+Theorem set_absorbs kd st o n v h : whole_ok n = true ->
+  touches_only (canon n) (classify kd o) = true ->
+  snd (run kd (after kd (after kd st o) (OSet n v)) h) = snd (run kd (after kd st (OSet n v)) h).
+Proof.
+  intros Hn Ht. apply abs_equiv_observations.
+  eapply aeq_trans; [apply abs_after2|]. eapply aeq_trans; [|apply aeq_sym; apply abs_after].
+  rewrite (classify_set_whole kd n _ Hn). apply absorb_write. exact Ht.
 Qed.
